@@ -85,10 +85,10 @@ def accountSum? (txs : List GTx) (account commodity : Bytes) : Option Rat :=
   | [] => none
   | l => some (sum l)
 
-/-- The commodities explicitly posted to `account`. -/
+/-- The commodities explicitly posted to `account` (with repetitions). -/
 def accountCommodities (txs : List GTx) (account : Bytes) : List Bytes :=
-  ((postingsOf txs).filterMap fun p =>
-    if p.account = account then p.amount.map (·.com) else none).eraseDups
+  (postingsOf txs).filterMap fun p =>
+    if p.account = account then p.amount.map (·.com) else none
 
 /-- Number of postings to the account (with or without an amount). -/
 def postingCount (txs : List GTx) (account : Bytes) : Nat :=
@@ -118,21 +118,26 @@ def readNat? : List UInt8 → Option Nat
       | some n, some d => some (n * 10 + d)
       | _, _ => none) (some 0)
 
+/-- `digits[.digits]` as an exact rational. -/
+def readBody? (body : Bytes) : Option Rat :=
+  match body.dropWhile (· != 46) with
+  | [] =>
+    match readNat? (body.takeWhile (· != 46)) with
+    | some n => some (n : Rat)
+    | none => none
+  | _ :: fp =>
+    match readNat? (body.takeWhile (· != 46)), readNat? fp with
+    | some n, some f => some ((n : Rat) + (f : Rat) / ((10 ^ fp.length : Nat) : Rat))
+    | _, _ => none
+
 /-- `[-]digits[.digits]` as an exact rational. -/
 def readDec? (s : Bytes) : Option Rat :=
-  let (neg, body) := match s with
-    | 45 :: r => (true, r)
-    | r => (false, r)
-  let ip := body.takeWhile (· != 46)
-  let rest := body.dropWhile (· != 46)
-  let v : Option Rat :=
-    match rest with
-    | [] => (readNat? ip).map (fun n => (n : Rat))
-    | _ :: fp =>
-      match readNat? ip, readNat? fp with
-      | some n, some f => some ((n : Rat) + (f : Rat) / ((10 ^ fp.length : Nat) : Rat))
-      | _, _ => none
-  v.map fun r => if neg then -r else r
+  match s with
+  | 45 :: r =>
+    match readBody? r with
+    | some v => some (-v)
+    | none => none
+  | r => readBody? r
 
 /-! ### Judging what a hover shows -/
 
@@ -152,7 +157,7 @@ deriving Repr, DecidableEq, Inhabited
 def accountOk (txs : List GTx) (account : Bytes) : Shown → Bool
   | .account name bal n =>
     name == account && n == postingCount txs account &&
-    (bal.map (·.1)).eraseDups.length == bal.length &&
+    decide (bal.map (·.1)).Nodup &&
     bal.all (fun (c, s) => match accountSum? txs account c, readDec? s with
       | some want, some got => want == got
       | _, _ => false) &&
